@@ -63,7 +63,12 @@ Prims == {[p |-> "rectangle", a |-> <<1, 2>>, b |-> <<5, 4>>], [p |-> "rectangle
 Annotate(secs) == LET sts == RunStates(Init0, secs, 1) IN
     [i \in DOMAIN secs |-> [sec |-> secs[i], ctrl |-> CtrlFor(sts[i], secs[i]),
                             xl |-> sts[i].xl, xc |-> sts[i].xc]]
+\* sections that have a command letter (segment h v, cubic and quadratic with their smooth forms, turn, arc)
+HasLetter(sec) == sec.k \in {"segment", "horizontal", "vertical", "cubic", "cubic_smooth", "quadratic",
+                             "quadratic_smooth", "turn", "arc"}
+CmdHistories == {h \in Secs2 \cup Secs3 : \A i \in DOMAIN h : HasLetter(h[i])}
 Init == \/ \E h \in Histories, t \in Tols : case = [k |-> "curve", tol |-> t, secs |-> Annotate(h)]
+        \/ \E h \in CmdHistories, t \in {2} : case = [k |-> "curve", tol |-> t, secs |-> Annotate(h), cmd |-> TRUE]
         \/ \E p \in Prims, t \in Tols : case = [k |-> "prim", tol |-> t] @@ p
         \* fillets also at a coarse tolerance (few segments per corner) in every tier
         \/ \E r \in {2, 3} : case = [k |-> "prim", tol |-> 1, p |-> "fillet", side |-> 8, r |-> r]
